@@ -158,7 +158,9 @@ def main(ctx):
                    classes=[case["via"], "n>65535" if case["n"] > 65535 else "n<=65535"])
 
     common.hyp_collect(cases, body, n_rand, ctx.seed)
-    ctx.required_classes = ["int", "answer", "decoded", "n>65535", "answer-e", "decoded-e", "history-in-place-change", "answer+exp", "decoded+exp"]
+    # the very first calls of a process, made by two threads at once (fresh interpreter per scenario)
+    list(common.first_use_sweep(col, "c17", "predicate_k(n) <=> n//1000 == k - from the first call of the process, in every thread"))
+    ctx.required_classes = ["first-use-parked-mid-call", "int", "answer", "decoded", "n>65535", "answer-e", "decoded-e", "history-in-place-change", "answer+exp", "decoded+exp"]
     ctx.assumptions = ["multiples of 1000 and answers without a Result-Code AVP are outside the statement",
                        "answer-object predicates are exercised on DiameterAnswer objects holding ResultCodeAVP(n), built and decoded"]
     return col
